@@ -24,7 +24,7 @@ ASSUMPTIONS = ['polling step of the kill loop is 0.1 s (kill_process); tolerance
 
 CAUSES = ['stop', 'restart', 'decr', 'reload', 'reload-seq', 'reload-term', 'kill', 'kill-signum', 'kill-gt',
           'kill-gt0', 'kill-gt-small', 'kill-pid', 'max_age', 'set-np', 'set-gt+stop', 'set-sig+stop', 'set-gt+decr',
-          'badkill+stop']
+          'badkill+stop', 'kill-long+stop']
 SIGS = {'TERM': signal.SIGTERM, 'INT': signal.SIGINT, 'QUIT': signal.SIGQUIT, 'USR1': signal.SIGUSR1}
 TOL = 1e-4
 STEP = 0.1
@@ -171,6 +171,13 @@ def run(scn, ch):
             world.run(until=lambda w: rq.replied() and w.slot() is None, horizon=1.0)
             t_cause = CLOCK.now
             world.request('decr' if c.endswith('decr') else 'stop', name='a')
+        elif c == 'kill-long+stop':
+            # a kill request with a long grace period of its own is still waiting when the stop arrives: the stop waits
+            # for it (and the SIGKILL of the kill request is the one that ends a worker ignoring the signal)
+            world.request('kill', name='a', graceful_timeout=1.0)
+            exp_g = 1.0
+            world.run(horizon=0.2)
+            world.request('stop', name='a')
         elif c == 'badkill+stop':
             # a kill request whose signal number the kernel rejects (EINVAL) fails; the next termination is an ordinary one
             rq = world.request('kill', name='a', signum=100)
@@ -188,6 +195,8 @@ def run(scn, ch):
                               [(p.pid - PID_BASE, p.state) for p in world.kernel.spawn_log]])
         return finish(world, res)
     except Abort as e:
+        res.check('C03.completes', False, 'cause %s: the daemon blocked: %s at %s' % (scn.cause, e, CLOCK.blocked_where),
+                  where=world.blocked_site())
         return finish(world, res, aborted=str(e))
 
 
@@ -198,7 +207,7 @@ def _oracle(world, scn, res, exp_sig, exp_g, t_cause, t_end):
     zsig = [(t, pid, s) for (t, pid, s, via) in k.signal_log if via != 'os.kill' and k.procs[pid].watcher == 'z']
     res.check('C03.bystander_not_signalled', not zsig, lambda: 'workers of the bystander watcher z were signalled: %s' % zsig,
               where='watcher.send_signal')
-    if scn.cause.endswith('stop') and scn.E == 0:
+    if scn.cause.endswith('stop') and scn.cause != 'kill-long+stop' and scn.E == 0:
         # a stop terminates every worker the watcher had: each of them that was still running gets the stop signal
         for p in k.spawn_log:
             if p.watcher == 'a' and p.spawn_time < t_cause - TOL and (p.death_time is None or p.death_time > t_cause + TOL):
